@@ -22,12 +22,30 @@ class NoAttrs:
 def run_case(ctx, rng, job):
     big = job['tier'] == 'thorough'
     ifs = []
+
+    def fresh(text):
+        # an equal but distinct str object (names built at run time are not interned)
+        return ''.join(list(text)) if len(text) > 1 and rng.random() < 0.6 else text
     for _ in range(rng.randint(6, 16 if big else 11)):
-        ifs.append(InterfaceClass(rng.choice(NAMES), (Interface,), {}, __module__=rng.choice(MODS)))
+        ifs.append(InterfaceClass(fresh(rng.choice(NAMES)), (Interface,), {}, __module__=fresh(rng.choice(MODS))))
+    # names with a space: Element.__init__ takes such a name for a docstring and sets __name__ to None; equality
+    # and hashing must still agree on the resulting key (None, module)
+    # (kept apart: against a str-named interface the key (None, m) is not even comparable for equality in the
+    #  Python implementation; such names are not interface names, only the hash/equality agreement is checked)
+    spaced = [InterfaceClass(rng.choice(['spaced name', 'other words here']), (Interface,), {}, __module__=rng.choice(MODS[1:3]))
+              for _ in range(rng.randint(2, 3))]
+    for a in spaced:
+        for b in spaced:
+            ctx.ev()
+            ctx.count('spaced_name_pairs')
+            keq = (a.__name__, a.__module__) == (b.__name__, b.__module__)
+            if (a == b) is not keq or (a != b) is keq or (keq and hash(a) != hash(b)):
+                ctx.violation('spaced-name-eq-hash', {'a': [str(a.__name__), a.__module__], 'b': [str(b.__name__), b.__module__],
+                                                      'eq': a == b, 'hash_equal': hash(a) == hash(b)})
     # equal-keyed twins, on purpose (never wired into one graph)
     for _ in range(rng.randint(1, 3)):
         t = rng.choice(ifs)
-        ifs.append(InterfaceClass(t.__name__, (Interface,), {}, __module__=t.__module__))
+        ifs.append(InterfaceClass(fresh(t.__name__), (Interface,), {}, __module__=fresh(t.__module__)))
     classes = []
     for _ in range(rng.randint(2, 4)):
         c = type(rng.choice(['A', 'B', 'Z', 'K']), (), {})
@@ -49,8 +67,20 @@ def run_case(ctx, rng, job):
             nontriv = a is not b and (ka[0] == kb[0] or ka[1] == kb[1] or kind in ('IS', 'SI'))
             if ka == kb and a is not b:
                 ctx.count('equal_key_distinct_pairs')
+                if ka[0] is not None and (a.__name__ is not b.__name__):
+                    ctx.count('equal_names_in_distinct_str_objects')
             for oname, op in OPS:
-                exp = op(ka, kb)
+                try:
+                    exp = op(ka, kb)
+                except TypeError:
+                    # (None, m) against (str, m): the key itself is unorderable; the library must say so too
+                    try:
+                        got = op(a, b)
+                        ctx.violation('unorderable-key-ordered', {'op': oname, 'a': list(map(str, ka)), 'b': list(map(str, kb)), 'got': repr(got)})
+                    except TypeError:
+                        pass
+                    ctx.ev()
+                    continue
                 if oname in ('eq', 'ne') and (id(a) not in isif or id(b) not in isif):
                     if id(a) not in isif and id(b) not in isif:
                         exp = (a is b) if oname == 'eq' else (a is not b)   # class specs: identity equality
@@ -65,13 +95,15 @@ def run_case(ctx, rng, job):
                                                       'b': [type(b).__name__] + list(kb), 'got': repr(got), 'expected': exp})
             # reflected forms agree
             ctx.ev()
-            if (a < b) != (b > a) or (a <= b) != (b >= a) or (a == b) != (b == a) or (a != b) == (a == b):
-                ctx.violation('reflection', {'a': list(ka), 'b': list(kb)})
+            orderable = (ka[0] is None) == (kb[0] is None)
+            if (a == b) != (b == a) or (a != b) == (a == b) or \
+                    (orderable and ((a < b) != (b > a) or (a <= b) != (b >= a))):
+                ctx.violation('reflection', {'a': list(map(str, ka)), 'b': list(map(str, kb))})
             if id(a) in isif and id(b) in isif and a == b:
                 ctx.ev()
                 if hash(a) != hash(b):
                     ctx.violation('equal-but-hash-differs', {'a': list(ka)})
-            ctx.shape(('pair', kind, ka[0] == kb[0], ka[1] == kb[1], (ka > kb) - (ka < kb)), nontrivial=nontriv)
+            ctx.shape(('pair', kind, ka[0] == kb[0], ka[1] == kb[1], ((ka > kb) - (ka < kb)) if orderable else 'n/a'), nontrivial=nontriv)
     for a in ifs:
         ctx.ev(2)
         ok = (a < None) and (a <= None) and not (a > None) and not (a >= None) and (a != None) and not (a == None) and \
@@ -89,8 +121,9 @@ def run_case(ctx, rng, job):
                     ctx.violation('foreign-ordering-no-typeerror', {'a': list(key(a)), 'op': oname, 'foreign': repr(f)})
                 except TypeError:
                     pass
+    named = [x for x in pool if x.__name__ is not None]
     for _ in range(300 if big else 120):
-        a, b, c = (rng.choice(pool) for _ in range(3))
+        a, b, c = (rng.choice(named) for _ in range(3))
         ctx.ev()
         ctx.count('triples')
         if a < b and b < c and not a < c:
@@ -98,6 +131,7 @@ def run_case(ctx, rng, job):
         if (a < b) + (b < a) + (key(a) == key(b)) != 1:
             ctx.violation('trichotomy', {'a': list(key(a)), 'b': list(key(b))})
     # sorting: equals a stable sort by key; rendered result is process independent
+    pool = named
     mixed = pool + [None]
     got = sorted(mixed)
     exp = sorted(pool, key=key) + [None]
@@ -106,7 +140,6 @@ def run_case(ctx, rng, job):
         ctx.violation('sorted-not-stable-by-key', {'got': [key(x) if x is not None else None for x in got]})
     idx = {id(x): n for n, x in enumerate(pool)}
     rendered = repr([(type(x).__name__, x.__name__, x.__module__, idx[id(x)]) if x is not None else None for x in got])
-    hashes = repr([hash(x) == hash(key(x)) for x in ifs])
     ctx.extra.setdefault('digests', {})['%s/%s' % (job['shard'], ctx.case)] = hashlib.sha1(rendered.encode('utf8', 'surrogatepass')).hexdigest()
     ctx.count('sorted_collections')
     if ctx.case < 1:
